@@ -48,7 +48,8 @@ rebuilt on). A keepalive or a logged stream that stayed on the TCP socket would 
 theorem tie_starttls_switches_everything :
     startTLSConn = ["tlsConn.Handshake", "t.conn=tlsConn", "newStreamLogger"] ∧
     startTLSReadWriter = ["tlsConn.Handshake", "t.readWriter=newStreamLogger(tlsConn,t.logFile)"] ∧
-    xmppPingWrites.head? = some "t.conn.Write" := by decide
+    -- Ping: a guard for a transport without a connection (a failed dial leaves none - F-18b), then the write to t.conn
+    xmppPingWrites.take 2 = ["if:return", "t.conn.Write"] := by decide
 
 end XmppVerif.Tie.Transport
 #print axioms XmppVerif.Tie.Transport.tie_xmpp_close
